@@ -538,3 +538,198 @@ func ruleW9(r *Run) {
 		r.Undec("parameter type lists", 0, "no uses of elements of a copied []reflect.Type found under rpc/")
 	}
 }
+
+// W10 (C04/C07): in the codecs, what was unmarshalled from the peer is of unknown shape.
+func init() {
+	register("W10", "in the RPC codecs (rpc/core codecs, rpc/codec/jsonrpc) a value taken from an unmarshalled message is type-asserted only in the comma-ok form or a type switch, and an index obtained by ranging over a list from the message is used on another slice only under a bound (i < len(other), or the list was clamped to len(other) first): a response of unexpected shape or length must give an error or be trimmed, not panic in the caller", 2, ruleW10)
+}
+
+func ruleW10(r *Run) {
+	p := r.P
+	n := 0
+	for _, rel := range []string{"rpc/codec/jsonrpc", "rpc/core"} {
+		pkg := p.Pkg(rel)
+		if pkg == nil {
+			continue
+		}
+		info := pkg.TypesInfo
+		for _, file := range pkg.Syntax {
+			name := p.Fset.Position(file.Pos()).Filename
+			if !strings.HasSuffix(name, "_codec.go") {
+				continue
+			}
+			for _, d := range file.Decls {
+				fd, ok := d.(*ast.FuncDecl)
+				if !ok || fd.Body == nil {
+					continue
+				}
+				parents := parentMap(fd.Body)
+				perFn := 0
+				// (a) single-value assertions on interface-typed struct fields (message fields)
+				ast.Inspect(fd.Body, func(m ast.Node) bool {
+					ta, ok := m.(*ast.TypeAssertExpr)
+					if !ok || ta.Type == nil {
+						return true
+					}
+					fv := fieldOf(info, ta.X)
+					if fv == nil {
+						return true
+					}
+					if _, isIface := fv.Type().Underlying().(*types.Interface); !isIface {
+						return true
+					}
+					n++
+					perFn++
+					key := fmt.Sprintf("assertion %s in %s #%d", types.ExprString(ta), p.DeclName(fd), perFn)
+					as, isAssign := parents[ta].(*ast.AssignStmt)
+					r.Check(isAssign && len(as.Lhs) == 2 && len(as.Rhs) == 1, key, ta.Pos(), "comma-ok form", fmt.Sprintf("%s holds whatever the peer sent; the single-value assertion panics when it is not a %s (a scalar result where the caller declared several)", types.ExprString(ta.X), types.ExprString(ta.Type)))
+					return true
+				})
+				// (b) range index over a message list used on another slice
+				ast.Inspect(fd.Body, func(m ast.Node) bool {
+					rs, ok := m.(*ast.RangeStmt)
+					if !ok || rs.Key == nil {
+						return true
+					}
+					ko := identObj(info, rs.Key)
+					lo := identObj(info, rs.X)
+					if ko == nil || lo == nil {
+						return true
+					}
+					// is the ranged list derived from a message field (assertion or field read)?
+					fromMsg := false
+					ast.Inspect(fd.Body, func(k ast.Node) bool {
+						as, ok := k.(*ast.AssignStmt)
+						if !ok {
+							return true
+						}
+						for i, l := range as.Lhs {
+							if identObj(info, l) != lo {
+								continue
+							}
+							var rhs ast.Expr
+							if len(as.Rhs) == len(as.Lhs) {
+								rhs = as.Rhs[i]
+							} else if len(as.Rhs) == 1 {
+								rhs = as.Rhs[0]
+							}
+							if rhs == nil {
+								continue
+							}
+							ast.Inspect(rhs, func(q ast.Node) bool {
+								if se, ok := q.(*ast.SelectorExpr); ok {
+									if fv := fieldOf(info, se); fv != nil {
+										if _, isIface := fv.Type().Underlying().(*types.Interface); isIface {
+											fromMsg = true
+										}
+									}
+								}
+								return true
+							})
+						}
+						return true
+					})
+					if !fromMsg {
+						return true
+					}
+					ast.Inspect(rs.Body, func(k ast.Node) bool {
+						ie, ok := k.(*ast.IndexExpr)
+						if !ok || identObj(info, ie.Index) != ko || identObj(info, ie.X) == lo {
+							return true
+						}
+						n++
+						perFn++
+						key := fmt.Sprintf("index %s by a message list position in %s #%d", types.ExprString(ie), p.DeclName(fd), perFn)
+						other := types.ExprString(ast.Unparen(ie.X))
+						ok2 := false
+						// bound on the index inside the loop
+						for _, fc := range factsWithSwitch(parents, ie) {
+							if be, isB := fc.e.(*ast.BinaryExpr); isB && identObj(info, be.X) == ko && ((!fc.neg && be.Op == token.LSS) || (fc.neg && be.Op == token.GEQ)) {
+								if c, isC := ast.Unparen(be.Y).(*ast.CallExpr); isC && IsBuiltin(info, c, "len") && types.ExprString(ast.Unparen(c.Args[0])) == other {
+									ok2 = true
+								}
+								if o := identObj(info, be.Y); o != nil && lenAliasOf(info, fd, other)[o] {
+									ok2 = true
+								}
+							}
+						}
+						// or the list was clamped before the loop: if len(list) > N { list = list[:N] } with N = len(other) (directly or via a local)
+						lenAlias := map[types.Object]bool{}
+						ast.Inspect(fd.Body, func(q ast.Node) bool {
+							if as, ok := q.(*ast.AssignStmt); ok && len(as.Lhs) == 1 && len(as.Rhs) == 1 {
+								if c, isC := ast.Unparen(as.Rhs[0]).(*ast.CallExpr); isC && IsBuiltin(info, c, "len") && types.ExprString(ast.Unparen(c.Args[0])) == other {
+									if o := identObj(info, as.Lhs[0]); o != nil {
+										lenAlias[o] = true
+									}
+								}
+							}
+							// switch n := len(other); n { ... }
+							if sw, ok := q.(*ast.SwitchStmt); ok && sw.Init != nil {
+								if as, ok := sw.Init.(*ast.AssignStmt); ok && len(as.Lhs) == 1 && len(as.Rhs) == 1 {
+									if c, isC := ast.Unparen(as.Rhs[0]).(*ast.CallExpr); isC && IsBuiltin(info, c, "len") && types.ExprString(ast.Unparen(c.Args[0])) == other {
+										if o := identObj(info, as.Lhs[0]); o != nil {
+											lenAlias[o] = true
+										}
+									}
+								}
+							}
+							return true
+						})
+						isLenOther := func(e ast.Expr) bool {
+							e = ast.Unparen(e)
+							if o := identObj(info, e); o != nil && lenAlias[o] {
+								return true
+							}
+							c, isC := e.(*ast.CallExpr)
+							return isC && IsBuiltin(info, c, "len") && types.ExprString(ast.Unparen(c.Args[0])) == other
+						}
+						ast.Inspect(fd.Body, func(q ast.Node) bool {
+							ifs, ok := q.(*ast.IfStmt)
+							if !ok || ifs.Pos() > rs.Pos() {
+								return true
+							}
+							be, ok := ast.Unparen(ifs.Cond).(*ast.BinaryExpr)
+							if !ok || be.Op != token.GTR {
+								return true
+							}
+							c, isC := ast.Unparen(be.X).(*ast.CallExpr)
+							if !isC || !IsBuiltin(info, c, "len") || identObj(info, c.Args[0]) != lo || !isLenOther(be.Y) {
+								return true
+							}
+							for _, s := range ifs.Body.List {
+								if as, ok := s.(*ast.AssignStmt); ok && len(as.Lhs) == 1 && identObj(info, as.Lhs[0]) == lo {
+									if se, ok := ast.Unparen(as.Rhs[0]).(*ast.SliceExpr); ok && identObj(info, se.X) == lo && se.High != nil && isLenOther(se.High) {
+										ok2 = true
+									}
+								}
+							}
+							return true
+						})
+						r.Check(ok2, key, ie.Pos(), "bounded by the other slice's length", fmt.Sprintf("%s is indexed by the position in a list taken from the peer's message, which can be longer than %s: a response with more elements than the caller declared panics with index out of range in the caller's goroutine", other, other))
+						return true
+					})
+					return true
+				})
+			}
+		}
+	}
+	if n == 0 {
+		r.Undec("codec message accesses", 0, "no assertions on message fields / cross-indexing found in the codecs")
+	}
+}
+
+// lenAliasOf: locals defined as len(<other>) in fd (also in a switch init).
+func lenAliasOf(info *types.Info, fd *ast.FuncDecl, other string) map[types.Object]bool {
+	out := map[types.Object]bool{}
+	ast.Inspect(fd.Body, func(q ast.Node) bool {
+		if as, ok := q.(*ast.AssignStmt); ok && len(as.Lhs) == 1 && len(as.Rhs) == 1 {
+			if c, isC := ast.Unparen(as.Rhs[0]).(*ast.CallExpr); isC && IsBuiltin(info, c, "len") && types.ExprString(ast.Unparen(c.Args[0])) == other {
+				if o := identObj(info, as.Lhs[0]); o != nil {
+					out[o] = true
+				}
+			}
+		}
+		return true
+	})
+	return out
+}
